@@ -330,6 +330,22 @@ func runC03(c *Ctx) {
 				What:   "the Lean Sched model rejects a real history: " + detail,
 				Input:  map[string]interface{}{"program": src, "spec": cs.spec.Name, "seed": cs.spec.Seed, "trace": res.Trace},
 				Broken: "correspondence Sched.replay"})
+		} else if done {
+			// the model's `Finished` (conclusion of failure_free_run_completes_exactly_once) against the
+			// real notion of completion: a real failure-free run that ended complete must have taken the
+			// model to a state in which every node is finished
+			end := schedEndNote(detail)
+			cl := end
+			if i := strings.Index(cl, ":"); i >= 0 {
+				cl = cl[:i]
+			}
+			r.hist("model_end_" + cl)
+			if res.Final == "complete" && end != "finished" && end != "done" {
+				r.violate(Violation{Kind: "correspondence", Key: "C03:model-not-finished:" + cl,
+					What:   "the real pipestance completed but the model's end state is not finished: " + detail,
+					Input:  map[string]interface{}{"program": src, "spec": cs.spec.Name, "seed": cs.spec.Seed, "trace": res.Trace},
+					Broken: "Finished (Props.C03.failure_free_run_completes_exactly_once) corresponds to Pipestance complete"})
+			}
 		}
 	}
 	// independent oracle for "exactly one fork per index / key, disabled ones run
